@@ -360,6 +360,41 @@ def feasible(v):
     return True
 
 
+def static_probes(ctx, rep):
+    """the policy decides with the same lookup the access itself uses (hasattr/getattr: instance dict, class, descriptors,
+    __getattr__). A static probe - inspect.getattr_static, vars(obj), type(obj).__dict__ - disagrees with it for names an object
+    serves dynamically, so the policy would pick the exposed twin (or refuse) although the plain name is there."""
+    from .. import callgraph
+    cg = callgraph.get(ctx)
+    roots = [K.CONN + "._check_attr", K.CONN + "._access_attr"]
+    closure = set(cg.closure(roots))
+    bad = []
+    n = 0
+    for q in sorted(closure):
+        fu = ctx.repo.funcs.get(q)
+        if fu is None or not q.startswith("rpyc.core.protocol"):
+            continue
+        n += 1
+        for c in A.calls(fu.node):
+            d = A.call_name(c) or ""
+            if d in ("inspect.getattr_static", "getattr_static", "vars") or d.endswith(".__dict__.get"):
+                bad.append((c, fu))
+        for x in A.walk(fu.node):
+            if isinstance(x, ast.Subscript) and isinstance(x.value, ast.Attribute) and x.value.attr == "__dict__" and \
+                    not isinstance(x.ctx, ast.Store):
+                bad.append((x, fu))
+            if isinstance(x, ast.Compare) and any(isinstance(o, (ast.In, ast.NotIn)) for o in x.ops) and any(
+                    isinstance(cmp_, ast.Attribute) and cmp_.attr == "__dict__" for cmp_ in x.comparators):
+                bad.append((x, fu))
+    rep.floor("R06.3", "functions in the closure of the access policy", n, 2)
+    rep.ob("R06.3", "access policy: attributes are probed with the dynamic lookup the access itself uses (no static probes)", not bad,
+           "%d functions" % n if not bad else
+           "`%s` in %s probes statically: a name the object serves through __getattr__ (or a descriptor the static lookup does not "
+           "run) counts as absent, so with an exposed twin present the access is redirected to the twin although the plain name is "
+           "allowed and available" % (A.src(bad[0][0])[:60], bad[0][1].qual.split(".", 3)[-1]),
+           ctx.loc(bad[0][0]) if bad else ctx.func(roots[0]).loc, kind="site")
+
+
 def check_decision_table(ctx, rep):
     f = ctx.func(K.CONN + "._check_attr")
     rep.analysed(f)
@@ -653,7 +688,11 @@ def run(ctx, rep):
     rep.assume("user-defined _rpyc_* hooks and descriptor side effects of hasattr are out of scope",
                "calls on peer-supplied objects are external by design")
     check_mediation(ctx, rep)
-    check_decision_table(ctx, rep)
+    static_probes(ctx, rep)
+    try:
+        check_decision_table(ctx, rep)
+    except AnalysisError as e_:
+        rep.undecided("R06.3", "_check_attr decision table", str(e_))
 
     # ---- R06.4
     fa = ctx.func(K.CONN + "._access_attr")
@@ -722,6 +761,16 @@ def run(ctx, rep):
                 raised |= set(n.raises or ())
         rep.ob("R06.6", "restricted.%s: other names are refused with AttributeError" % hook, raised == {AttributeError},
                "raises %s" % sorted(k.__name__ for k in raised), f.loc, kind="site")
+    # the view decides reads and writes - the two kinds its two lists describe - and nothing else: a further hook (_rpyc_delattr,
+    # __delattr__, __getattribute__) would take a third kind of operation away from the connection's configuration
+    hook_names = {"_rpyc_getattr", "_rpyc_setattr", "_rpyc_delattr", "__getattr__", "__setattr__", "__delattr__", "__getattribute__"}
+    defined = set(methods) | {t.id for st in view.body if isinstance(st, ast.Assign) for t in st.targets if isinstance(t, ast.Name)}
+    extra_hooks = sorted((defined & hook_names) - {"_rpyc_getattr", "_rpyc_setattr", "__getattr__", "__setattr__"})
+    rep.ob("R06.6", "restricted: the view takes over reading and writing only (deleting stays with the connection's configuration)",
+           not extra_hooks, "hooks: _rpyc_getattr/__getattr__, _rpyc_setattr/__setattr__" if not extra_hooks else
+           "the view also defines %s: a peer can now delete attributes of the wrapped object through the view although the "
+           "connection's configuration has allow_delattr off (an object's own hook wins over the configuration)" % extra_hooks,
+           ctx.loc(view), kind="site")
     # wattrs default
     dflt = [n for n in A.walk(fr.node) if isinstance(n, ast.If) and "is None" in A.src(n.test) and rprm[2] in A.src(n.test)]
     okd = bool(dflt) and A.norm(dflt[0].body[0]) == "%s = %s" % (rprm[2], rprm[1])
@@ -922,8 +971,20 @@ def _config_model(ctx, rep):
             glob = {"DEFAULT_CONFIG": dflt, "_connection_id_generator": gen}
             extra = {"__calls__": hooks, "__globals__": glob, "__max_iter__": 500,
                      "__methods__": {n: m.node for n, m in ctx.cls(K.CONN).methods.items() if n not in ("__init__", "_request_handlers")}}
-            st = {}
-            MI.call_method(fi.node, st, ["ROOT", "CHANNEL", passed], extra)
+            import re as _re
+            for _attempt in range(12):
+                st = {}
+                dflt.clear(); dflt.update(defaults)
+                passed.clear(); passed.update(given)
+                try:
+                    MI.call_method(fi.node, st, ["ROOT", "CHANNEL", passed], extra)
+                    break
+                except AnalysisError as e_:
+                    # a constructor of some other state field the model does not know (Queue(maxsize=...), deque()): opaque
+                    m_ = _re.match(r"miniinterp: unsupported call ([A-Za-z_][\w.]*)\(", str(e_))
+                    if m_ is None or m_.group(1) in hooks or m_.group(1).startswith("self."):
+                        raise
+                    hooks[m_.group(1)] = mk(m_.group(1))
             cfg = st.get("_config")
             want = dict(defaults)
             want.update(given)
